@@ -431,3 +431,40 @@ Lemma ms_equals_separates_deep_difference :
 Proof. split; reflexivity. Qed.
 
 End ResumeStackEquals.
+
+(* ------------------------------------------------------------------ the re-split of splitInlineBox *)
+
+(* the kept box and the resume point must come from the same split *)
+Lemma split_retry_same_split_iff : forall (U : Type) (ws : list U) k_last k_res,
+  k_last <= length ws -> k_res <= length ws ->
+  (step_ok nat U (text_from U ws) (retry_step U ws k_last k_res) <-> k_res = k_last).
+Proof.
+  intros U ws k_last k_res Hl Hr. unfold step_ok, retry_step, split_step, text_from, content_opt.
+  cbn [skip placed resume]. cbn [skipn]. split.
+  - intro H. apply (f_equal (@length U)) in H.
+    rewrite app_length, firstn_length, skipn_length in H. lia.
+  - intros ->. symmetry. apply firstn_skipn.
+Qed.
+
+Lemma split_step_ok : forall (U : Type) (ws : list U) k,
+  step_ok nat U (text_from U ws) (split_step U ws k).
+Proof.
+  intros U ws k. unfold step_ok, split_step, text_from, content_opt. cbn [skip placed resume skipn].
+  symmetry. apply firstn_skipn.
+Qed.
+
+(* ------------------------------------------------------------------ a cancelled layout that is restarted *)
+
+(* the text of the out-of-flow child is laid out exactly once iff the registry designates
+   nothing for it *)
+Lemma cancelled_block_registration_iff : forall (U : Type) (text : list U) registered,
+  cancel_restart_text U text registered = text <->
+  match registered with Some p => skipn p text = [] | None => True end.
+Proof.
+  intros U text [p|]; unfold cancel_restart_text.
+  - split.
+    + intro H. apply (f_equal (@length U)) in H. rewrite app_length in H.
+      destruct (skipn p text) as [|a l]; [reflexivity | cbn [length] in H; lia].
+    + intros ->. reflexivity.
+  - cbn [app]. tauto.
+Qed.
